@@ -80,7 +80,7 @@ WriteOk(r, cs, w) ==
 \* while an exclusive-borrow collection is filled it writes its elements into the prepared free range; finalising moves
 \* them to the bump side of that range: these steps may write anywhere inside the content range of the current chunk
 \* (header included: a write range may straddle both) that is not a live block (live blocks are covered by the damage check)
-PrepWrite(r) == r.a \in {"prep_push", "prep_reserve", "prep_commit", "try_with"}   \* (alloc_try_with constructs the Result in free space first)
+PrepWrite(r) == r.a \in {"prep_push", "prep_reserve", "prep_commit", "iter_mut", "try_with"}   \* (alloc_try_with constructs the Result in free space first)
 InChunk(cs, lo, hi) == \E i \in 1..Len(cs) : lo >= cs[i].start /\ hi <= cs[i].start + cs[i].size
 
 C02_Viol(r) ==
@@ -128,7 +128,7 @@ C03_Again(r) ==
 (***************************************************************************)
 BaseEvs(r) == r.o.base
 MayRelease(r) == r.a \in {"reset", "drop", "final"} \/ (r.a = "with_settings" /\ r.o.res = "panic")
-MayAcquire(r) == r.a \in {"ctor", "alloc", "grow", "shrink", "reserve", "enter", "prep_push", "prep_reserve", "try_with"} \* enter: by_value / claim on unallocated
+MayAcquire(r) == r.a \in {"ctor", "alloc", "grow", "shrink", "reserve", "enter", "prep_push", "prep_reserve", "iter_mut", "try_with"} \* enter: by_value / claim on unallocated
 FreeOk(gs, ev) ==
     \E g \in 1..Len(gs) : /\ gs[g].addr = ev[2] /\ ~gs[g].live /\ gs[g].frees = 1
                           /\ gs[g].align = ev[4] /\ ev[3] >= gs[g].req /\ ev[3] <= gs[g].size
@@ -179,7 +179,8 @@ C10_Viol(r) ==
 (***************************************************************************)
 C12_Viol(r) ==
     IsStep(r) /\
-    \/ NAllocEv(r) > 1                                                          \* at most one chunk per request
+    \/ NAllocEv(r) > 1 /\ r.a # "iter_mut"                                      \* at most one chunk per request (the one-shot
+                                                                                \* helper is a whole fill: several requests)
     \/ AllocLike(r) /\ Ok(r) /\ NAllocEv(r) = 1 /\
          LET ev == CHOOSE k \in 1..Len(r.o.base) : r.o.base[k][1] = "alloc" IN
          ~(r.o.addr >= r.o.base[ev][4] /\ r.o.addr + r.args.sz <= r.o.base[ev][4] + r.o.base[ev][5])
@@ -286,6 +287,18 @@ C15_Viol(r) ==
               adv < r.o.len \/ adv > r.o.len + (r.exp.x.eal - 1) + (r.o.ma - 1)
          \/ r.o.len > 0 /\ r.o.addr % r.exp.x.eal # 0
          \/ r.o.damaged # <<>>
+    \* the one-shot helpers alloc_iter_mut(_rev): exactly the yielded elements (reversed for rev) whatever the size hint said;
+    \* the position advances by the contents plus padding -- in the chunk that was current, or in a later chunk that was empty
+    \/ r.a = "iter_mut" /\
+         \/ r.o.res # "ok" \/ ~r.o.content_ok \/ r.o.len # r.args.n * r.args.esz
+         \/ r.o.damaged # <<>>
+         \/ r.o.len > 0 /\ r.o.addr % r.args.eal # 0
+         \/ r.o.len > 0 /\ r.o.cur # 0 /\
+              LET c == r.o.chunks[r.o.cur]
+                  adv == IF r.o.pp[1] = c[1] THEN Abs(c[5] - r.o.pp[2]) ELSE c[6]
+              IN adv < r.o.len \/ adv > r.o.len + (r.args.eal - 1) + (r.o.ma - 1)
+         \/ r.o.pp[1] # 0 /\ \E k \in 1..Len(r.o.chunks) :
+              r.o.chunks[k][1] = r.o.pp[1] /\ k # r.o.cur /\ r.o.chunks[k][5] # r.o.pp[2]   \* the earlier chunk keeps its position
 
 (***************************************************************************)
 (* C16 (memory level)  split-off parts are independent allocations         *)
@@ -329,6 +342,7 @@ Init == /\ done = TRUE
         /\ PrintT(<<"BAD_C16", {i \in Idx : C16_Viol(Rec[i])}>>)
         /\ PrintT(<<"N_PARTS", Cardinality({i \in Idx : IsStep(Rec[i]) /\ Rec[i].exp.nparts > 0})>>)
         /\ PrintT(<<"N_PREP", Cardinality({i \in Idx : PrepFill(Rec[i]) \/ Rec[i].a = "prep_commit"})>>)
+        /\ PrintT(<<"N_ITERMUT", Cardinality({i \in Idx : Rec[i].a = "iter_mut" /\ Rec[i].o.len > 0})>>)
         /\ PrintT(<<"N_COMMIT", Cardinality({i \in Idx : Rec[i].a = "prep_commit" /\ Rec[i].o.len > 0})>>)
         /\ PrintT(<<"N_FAIL", Cardinality({i \in Idx : IsStep(Rec[i]) /\ (ScriptedFail(Rec[i]) \/ Rec[i].a = "alloc_huge")})>>)
         /\ PrintT(<<"N_CLAIMED_OP", Cardinality({i \in Idx : Rec[i].a = "claimed_op"})>>)
